@@ -43,7 +43,7 @@ where
                     Ok((res, msg)) => {
                         self.reader.consume(res);
                         self.bytes_processed += res;
-                        self.index += 1;
+                        self.index = self.index.wrapping_add(1); // the last msg can have index MAX
                         self.detected_storage_header = true;
                         return Some(msg);
                     }
@@ -85,7 +85,7 @@ where
                         }
                         self.reader.consume(res);
                         self.bytes_processed += res;
-                        self.index += 1;
+                        self.index = self.index.wrapping_add(1); // the last msg can have index MAX
                         self.detected_serial_header = true;
                         return Some(msg);
                     }
